@@ -12,7 +12,7 @@ from pyvc import values as V
 from pyvc.api import *
 from pyvc.api import PROTOCOLS
 from pyvc.protocol import PMethod, Protocol
-from pyvc.seqs import SObj
+from pyvc.seqs import SObj, SSeq
 from pyvc.values import SOpt, cur, mk_bool
 
 import urwid
@@ -420,6 +420,77 @@ class _CanvasCombineContract(Contract):
 REGISTRY[_CanvasCombineContract.target] = _CanvasCombineContract()
 
 
+class JoinFold(SSeq):
+    """A list of CanvasJoin items (canvas, position, focus, cols) of unknown length, known only through the left
+    fold CanvasJoin computes over it (the canvas protocol for CanvasJoin, owned by C02): number of items, total of
+    the given widths, tallest part, the cursor (of the last part that has one inside its given width, shifted by
+    the widths to its left) and whether every part fits its given width.  Elements cannot be read back."""
+
+    FIELDS = ("n", "cols", "rows", "has", "cx", "cy", "ok")
+
+    def __init__(self, fold):
+        def getter(i):
+            raise Unsupported("element of a canvas list that is modelled by its join only")
+
+        super().__init__(fold["n"], getter, None, None, "joinlist")
+        self.fold = fold
+
+    @staticmethod
+    def empty():
+        return dict(n=0, cols=0, rows=0, has=False, cx=0, cy=0, ok=True)
+
+    @staticmethod
+    def step(f, item):
+        canv, _pos, _focus, c = item
+        cu = canv.cursor
+        if cu is None or cu is False:
+            inside = False
+            x = y = 0
+        else:
+            inside = both(neg(is_none(cu)) if not isinstance(cu, SOpt) else neg(mk_bool(cu.isnone)), (cu.val if isinstance(cu, SOpt) else cu)[0] < c)
+            x, y = (cu.val if isinstance(cu, SOpt) else cu)
+        return dict(
+            n=f["n"] + 1, cols=f["cols"] + c, rows=imax(f["rows"], canv.nrows),
+            has=either(inside, f["has"]), cx=ite(inside, x + f["cols"], f["cx"]), cy=ite(inside, y, f["cy"]),
+            ok=both(f["ok"], c >= 0, implies(c > canv.ncols, neg(canv.noshards))),
+        )
+
+    def fold_concat(self, items):
+        f = self.fold
+        for it in items:
+            f = JoinFold.step(f, it)
+        return JoinFold(f)
+
+    @staticmethod
+    def of(seq):
+        """The fold of a concrete list of items, or of a JoinFold."""
+        from pyvc.seqs import LRef
+
+        if isinstance(seq, LRef):
+            seq = seq.seq
+        if isinstance(seq, JoinFold):
+            return seq.fold
+        if isinstance(seq, (tuple, list)):
+            f = JoinFold.empty()
+            for it in seq:
+                f = JoinFold.step(f, it)
+            return f
+        raise Unsupported("join fold of a general symbolic sequence")
+
+
+class JoinList(S.ListOf):
+    """Shape of a havocked canvas list: a fresh JoinFold."""
+
+    def __init__(self):
+        super().__init__(None)
+
+    def fresh_seq(self, st, hint):
+        f = dict(n=st.fresh_int(hint + "_n"), cols=st.fresh_int(hint + "_cols"), rows=st.fresh_int(hint + "_rows"), has=st.fresh_bool(hint + "_has"),
+                 cx=st.fresh_int(hint + "_cx"), cy=st.fresh_int(hint + "_cy"), ok=st.fresh_bool(hint + "_ok"))
+        st.assume(both(f["n"] >= 0, f["cols"] >= 0, f["rows"] >= 0))
+        return JoinFold(f)
+
+
 class _CanvasJoinContract(Contract):
     target = "urwid/canvas.py:CanvasJoin"
     property = ()
@@ -427,7 +498,18 @@ class _CanvasJoinContract(Contract):
     notes = "canvas protocol: widths as given add up, height is the tallest part, cursor shifted by the columns to the left (owned by C02)"
 
     def apply(self, ip, st, f, args, kwargs, site=None):
-        runs = _seq_items(args[0] if args else kwargs["canvas_info"])
+        arg = args[0] if args else kwargs["canvas_info"]
+        inner = getattr(arg, "seq", arg)
+        if isinstance(inner, JoinFold):
+            fo = inner.fold
+            r = CCANVAS.fresh(st, "joined")
+            st.oblige(f"{ip.task.name}/call-pre@CanvasJoin:{(site or '').split(':')[-1]}/part-fits", fo["ok"], "call-pre")
+            st.assume(both(r.ncols == fo["cols"], r.nrows == fo["rows"], eq(r.noshards, fo["n"] == 0), eq(mk_bool(r.cursor.isnone), neg(fo["has"])),
+                           implies(fo["has"], both(r.cursor.val[0] == fo["cx"], r.cursor.val[1] == fo["cy"]))))
+            st.event("join", inner, r)
+            ip.task.used_contracts.add(self.target)
+            return r
+        runs = _seq_items(arg)
         r = CCANVAS.fresh(st, "joined")
         cols = 0
         rows = 0
@@ -506,6 +588,25 @@ class w_invalidate:
 class cc_set_depends:
     self_shape = CCANVAS
     modifies = ()
+
+
+# ---- mouse event names (opaque keys): is_mouse_press is an uninterpreted predicate of the event
+
+
+def is_press(ev):
+    """urwid.util.is_mouse_press(ev) for an opaque event name (dual use)."""
+    if isinstance(ev, V.Sym):
+        f = z3.Function("Key.is_mouse_press", ev.e.sort(), z3.BoolSort())
+        return mk_bool(f(ev.e))
+    return "press" in ev
+
+
+@contract("urwid/util.py:is_mouse_press", property=(), assumed=True,
+          notes="`'press' in ev`: a pure function of the event name; event names are opaque keys here, so the result is an uninterpreted predicate of the event")
+class is_mouse_press_c:
+    params = dict(ev=Opaque("Key"))
+    result = Bool
+    pure_spec = staticmethod(lambda a: is_press(a.ev))
 
 
 @contract("urwid/widget/widget.py:Widget.__init__", property=(), assumed=True,
